@@ -54,7 +54,16 @@ class ExprMixin:
         return v
 
     def ex_Tuple(self, e, fr):
-        return VTuple([self.eval(x, fr) for x in e.elts])
+        items = []
+        for x in e.elts:
+            if isinstance(x, ast.Starred):
+                ci = self.concrete_items(self.eval(x.value, fr))
+                if ci is None:
+                    raise Unsupported("starred element of unknown length")
+                items.extend(ci)
+            else:
+                items.append(self.eval(x, fr))
+        return VTuple(items)
 
     def ex_List(self, e, fr):
         items = []
@@ -192,8 +201,11 @@ class ExprMixin:
                 v = self.eval(x, fr)
                 vals.append(v)
                 if i < len(e.values) - 1:
-                    c = simp(truthy(v))
-                    conds.append(c)
+                    raw = truthy(v)
+                    c = simp(raw)
+                    # the merge below uses the UNSIMPLIFIED condition: it is the same term as the operand's value, so
+                    # closure conversion of comprehension predicates sees one captured subterm, not two spellings of it
+                    conds.append(c if (z3.is_true(c) or z3.is_false(c)) else raw)
                     if (is_and and z3.is_false(c)) or ((not is_and) and z3.is_true(c)):
                         break
                     # later operands are evaluated only if this one is truthy (and) / falsy (or)
@@ -848,7 +860,7 @@ class ExprMixin:
         caps = []
         seen = set()
         for t in terms:
-            for c in (_captured_subterms(t, x) if not __import__("os").environ.get("PYVC_AB") else [k for k in _free_consts(t) if not k.eq(x)]):
+            for c in _captured_subterms(t, x):
                 if c.get_id() in seen:
                     continue
                 seen.add(c.get_id())
